@@ -5,7 +5,7 @@ LEAN_TARGETS = ["LyModel.Props.C12", "LyModel.XmlTree.OpaqDoc", "LyModel.XmlTree
                 "LyModel.XmlTree.OpaqCheck", "LyModel.XmlTree.OpaqFaithful", "LyModel.XmlTree.DataCheck", "LyModel.XmlTree.DataFaithful", "LyModel.XmlTree.SpecScope", "LyModel.XmlTree.ScopeFaithful", "LyModel.XmlTree.SpecScopeLemmas", "LyModel.JsonTree.MetaView"]
 AUDIT = ["Audit/C12.lean", "Audit/C12Fn.lean"]
 GENERATED = ["XmlEsc", "JsonEsc", "JsonTyping", "XmlNsFixes"]
-LEAN_TARGETS += ["LyModel.Props.C05Fn"]; GENERATED += ["FnUtf8"]     # functions translated from the C source (tools/c2lean.py), bridged in lean/LyModel/Bridge
+LEAN_TARGETS += ["LyModel.Props.C05Fn", "LyModel.Props.C01FnPrint"]; GENERATED += ["FnUtf8", "FnPrint"]     # functions translated from the C source (tools/c2lean.py), bridged in lean/LyModel/Bridge
 ASSUMPTIONS = ["UTF-8 well-formedness of the output is judged by expat / Python json in the correspondence run, not by the Lean spec readers",
                "tree-level structure is under theorems for data nodes without metadata (xml_document_faithful, json_document_faithful) and for opaque XML nodes (opaque_document_faithful); for XML data nodes with metadata (xml_document_faithful_meta(_scoped)); JSON metadata is compared with the state-free expectation jsonViewM on every view (no theorem yet); formatted output is covered by the api-level round-trip harness only"]
 TRUSTED = ["Python xml.parsers.expat and json as the independent parsers"]
@@ -20,7 +20,7 @@ def classify(component, what, case):
 
 
 def run(cx):
-    from checks import fncomp; fncomp.run_fn(cx, ['utf8'])
+    from checks import fncomp; fncomp.run_fn(cx, ['utf8', 'print'])
     textcomp.run_text(cx, want=("xml", "json"), law=("independent",))
     textcomp.spec_readers_vs_external(cx, textcomp.gen_strings(cx, 3000, 50000))
     rtcomp.run_rt(cx, laws=("independent",))
